@@ -110,13 +110,29 @@ PROPS["C20"] = dict(
     rule="cases of 1-4 keystores x up to 400 ids incl. odd ids; ops create/get/has/has-never-created/createIdentity/sign/restart in PRNG order; non-trivial = a created key is read through a non-creator keystore, after a restart, or after >= 128 later creations",
 )
 
-PROPS_EXTRA = {"C06": ["Props.EffectFacts", "Props.CodecFacts", "Props.SlicesGen"], "C17": ["Props.EffectFacts", "Props.SlicesGen"],
-               "C04": ["Props.C04Conc", "Props.SlicesGen"],
-               "C02": ["Props.C13Facts", "Props.SlicesGen"], "C15": ["Props.C13Facts", "Props.SlicesGen"], "C19": ["Props.C19Gen"], "C03": ["Props.C19Gen", "Props.SlicesGen"],
-               "C01": ["Props.SlicesGen"], "C05": ["Props.SlicesGen"],
-               "C07": ["Props.CodecFacts"], "C08": ["Props.CodecFacts", "Props.SlicesGen"], "C12": ["Props.CodecFacts", "Props.SlicesGen"], "C11": ["Props.SlicesGen"],
-               "C18": ["Props.CodecFacts", "Props.SlicesGen"], "C09": ["Props.SlicesGen"], "C10": ["Props.SlicesGen"],
-               "C14": ["Props.SlicesGen"], "C16": ["Props.SlicesGen"]}
+# extra Lean targets per property: regenerated fact obligations and the translated-code equalities (Props/Gen*.lean,
+# one module per group of translated functions, so that a function leaving the translatable subset breaks only the
+# properties resting on it)
+PROPS_EXTRA = {
+    'C01': ['Props.GenHeads', 'Props.GenJoin', 'Props.GenTraverse'],
+    'C02': ['Props.C13Facts', 'Props.GenHeads'],
+    'C03': ['Props.C19Gen', 'Props.GenTraverse'],
+    'C04': ['Props.C04Conc', 'Props.GenMisc'],
+    'C05': ['Props.GenTraverse'],
+    'C06': ['Props.EffectFacts', 'Props.CodecFacts', 'Props.GenHeads', 'Props.GenJoin'],
+    'C07': ['Props.CodecFacts'],
+    'C08': ['Props.CodecFacts', 'Props.GenMisc'],
+    'C09': ['Props.GenFetcher', 'Props.GenHeads', 'Props.GenLoaders'],
+    'C10': ['Props.GenFetcher', 'Props.GenLoaders'],
+    'C11': ['Props.GenFetcher'],
+    'C12': ['Props.CodecFacts', 'Props.GenFetcher'],
+    'C14': ['Props.GenHeads', 'Props.GenJoin'],
+    'C15': ['Props.C13Facts', 'Props.GenTraverse'],
+    'C16': ['Props.GenJoin'],
+    'C17': ['Props.EffectFacts', 'Props.GenFetcher'],
+    'C18': ['Props.CodecFacts', 'Props.GenMisc'],
+    'C19': ['Props.C19Gen'],
+}
 _core_prop("C06", "Merge admits only verified, authorised entries and is all-or-nothing",
     r"(join|joinN|append|tamper)/(join\..*|append\.denied|entries|len|heads|rawheads|values|clock|snapshot\..*|json\.heads)",
     "Lean 4: theorems on the transcription of Join with an abstract per-candidate validity predicate (join_rejects, join_admits for every size bound, heads admitted), denied append, create-then-verify under an abstract codec/crypto; differential replay with access-controller denial and tampered source logs",
@@ -148,7 +164,7 @@ PROPS["C10"] = dict(
     diff_fields_by_stream={"core": r"loadN:.*", "fetch": r".*"},
     spec_ids=["C10"],
     technique="Lean 4: admission invariant of the bounded fetcher over all accepted event lists (fetch_limited_superset) and uniqueness of sort-and-trim (load_limited_exact); trace validation and all four loaders with limits 0..size+3",
-    level_text="Kernel-checked for every accepted quiescent event list with limit n >= 0, no faults, times increasing along next: results are duplicate-free ancestors, every ancestor is admitted or dominated by n admitted entries with larger time, hence the newest n are present, and sort-and-trim of the result equals sort-and-trim of the whole closure — independent of concurrency and arrival order; for NewFromEntry (entryLastNKeeping) load_entries_limited_exact: all supplied entries, min(max(n,k),size) in all, of the others exactly the newest max(n,k)-d, again independent of the schedule. The trimming helpers entryLastN, entryLastNKeeping, entrySliceRange and Difference are translated from the Go source on every run and proved equal to the model, including absence of slice-bounds panics (Props/SlicesGen). Tied to the code by trace validation and by the loaders' outputs against the specification 'all supplied entries plus the most recent others' on every generated case.",
+    level_text="Kernel-checked for every accepted quiescent event list with limit n >= 0, no faults, times increasing along next: results are duplicate-free ancestors, every ancestor is admitted or dominated by n admitted entries with larger time, hence the newest n are present, and sort-and-trim of the result equals sort-and-trim of the whole closure — independent of concurrency and arrival order; for NewFromEntry (entryLastNKeeping) load_entries_limited_exact: all supplied entries, min(max(n,k),size) in all, of the others exactly the newest max(n,k)-d, again independent of the schedule. The trimming helpers entryLastN, entryLastNKeeping, entrySliceRange and Difference are translated from the Go source on every run and proved equal to the model, including absence of slice-bounds panics (Props/GenLoaders). Tied to the code by trace validation and by the loaders' outputs against the specification 'all supplied entries plus the most recent others' on every generated case.",
     level_note=FETCH_NOTE + " Gap stated in DESIGN.md: NewFromEntryHash with n = 0 fetches with 0 but trims with 1 — covered by the stream, not by the theorem.",
     design_ref="§8 C10",
     rule=FETCH_RULE,
